@@ -35,6 +35,7 @@ JM = "chuk_mcp.protocol.messages.json_rpc_message"
 METHODS = ["tools/call", "", "méthod/ \U0001F600\"\\\n"]
 IDS = list(gen.IDS)
 IDS_FEW = [0, 2 ** 64 - 1, "", "007", "é"]
+IDS_TWO = [2 ** 64 - 1, ""]
 CODES = [-32700, 0, 1, -(2 ** 63), 2 ** 63]
 MSGS = ["", "a", "méss  \U0001F600\"\\\n\x00"]
 TEXTS = ["x", "", "café  \U0001F600\"\\\n"]
@@ -555,6 +556,17 @@ def _stdio_message(kindname: str, rid: Any, p: Any, method: str):
     return d, base, exp
 
 
+def stdio_values(depth: int) -> list:
+    """result / error.data payloads for the transport part: every value up to depth 2, plus (thorough) every depth-3 object."""
+    key = ("stdio-values", depth)
+    if key not in _TABLES:
+        vals = [v for v in table("values", min(depth, 2)) if v is not None]
+        if depth > 2:
+            vals = vals + table("objects", depth)
+        _TABLES[key] = vals
+    return _TABLES[key]
+
+
 def _run_stdio(cfg) -> Dict[str, Any]:
     from chuk_mcp.transports.stdio.stdio_client import StdioClient
 
@@ -566,7 +578,7 @@ def _run_stdio(cfg) -> Dict[str, Any]:
     if base in ("request", "notification"):
         payloads = [None] + table("objects", cfg["depth"])
     else:
-        payloads = [v for v in table("values", cfg["depth"]) if v is not None]
+        payloads = stdio_values(cfg["depth"])
     payloads = payloads[cfg["lo"]:cfg["hi"]]
     loop = new_loop(horizon=60)
     q = seams.Quiescence(loop)
@@ -711,7 +723,7 @@ def run(tier: str, only=None) -> core.Result:
         return res
 
     # ---- (a) constructors ------------------------------------------------------------------
-    ids_big = IDS if tier == "quick" else IDS_FEW  # payload depth 3 x the full id list is run at depth 2 below
+    ids_big = IDS if tier == "quick" else IDS_TWO  # thorough: depth-3 payloads x 2 ids, and depth-2 payloads x all ids below
     cfgs = []
 
     def ctor_cfgs(c, d, ids, idxs_extra=True):
@@ -768,7 +780,7 @@ def run(tier: str, only=None) -> core.Result:
     # ---- (d) transports ----------------------------------------------------------------------
     cfgs = []
     for ki, kn in enumerate(STDIO_KINDS):
-        n = n_obj if kn.split("-")[0] in ("request", "notification") else n_val - 1
+        n = n_obj if kn.split("-")[0] in ("request", "notification") else len(stdio_values(depth))
         for ii in range(len(ids_srv)):
             for mi in (range(len(METHODS)) if kn.split("-")[0] in ("request", "notification") else [0]):
                 for lo, hi in _ranges(n, BLOCK):
@@ -811,7 +823,9 @@ def run(tier: str, only=None) -> core.Result:
         "argument profiles {required only, all optionals, second Union arm} x 3 texts for str parameters x every object for Dict[str, Any] "
         "parameters; (c) MCPServer handler: 14 method cases x id x every object as params/arguments; (d) stdio: 9 message kinds (typed, unified, "
         "dict) x id x payload through the real StdioClient to the scripted child's stdin; create_batch_rejection_error x 5 versions x 18 ids. "
-        + ("" if tier == "quick" else "thorough: depth-3 payloads with 5 ids, plus the depth-2 payloads with all 17 ids. ")
+        + "stdio: the second and third method only with the first block of payloads. "
+        + ("" if tier == "quick" else "thorough: constructors with depth-3 payloads x ids {2^64-1, empty string} plus depth-2 payloads x all 17 ids; "
+           "server and stdio with 5 ids; stdio result/error payloads = every value of depth<=2 plus every depth-3 object. ")
         + "every emitted message is judged in each serialised form (model_dump(exclude_none=True), model_dump_json(), model_dump_json(exclude_none=True) "
         "or the stdin bytes). distinct_nontrivial = distinct observation digests of the blocks (one block = one emitter x id x method x <=100/400 payloads)"
     )
